@@ -11,10 +11,19 @@ Tie        : correspondence `gc_faults`: tables with 1-4 retained snapshots (sha
              (exists->False, garbage bytes, listing + "../x")} by wrapping the storage object; the same fault plan
              drives the model; compared: abort phase / completion, exact deleted set, keep sets, call trace.
              `gc_damage`: every damage class {missing, garbage, empty, cut inside the Avro block, cut in the header}
-             on every reachable list / manifest, real directory vs model.  The pointer plane (version hint, metadata JSON)
+             on every reachable list / manifest, plus BYTE-LEVEL damage anywhere in the file -- single-byte flips and
+             truncations over the header, the block framing, EVERY record and every sync marker (quick: spread + structural
+             offsets; thorough: every offset) -- on tables whose lists and manifests have several records and, in two
+             variants, several Avro blocks; plus the STREAM of each list / manifest failing part-way (connection reset,
+             short read) at spread / block-boundary offsets.  What a damaged file or faulty stream amounts to (records
+             decoded before the failure, exception class) is decided by an independent record-by-record decode; the model
+             gets the content class CPartialAvro (decoded, caught) resp. the fault FRaise / FRaiseX, real vs model.  The pointer plane (version hint, metadata JSON)
              is outside the model: faults at every call of refresh() / the hint check and damage of the current metadata
              file {missing, garbage, empty, truncated} are judged by the oracle only; a stale hint is recorded, not judged.
-Oracle /   : implementation only (independent reader): whenever collect raised -> GarbageCollectionAborted and the
+             Every library call runs under a time limit (SIGALRM) and a worker memory limit: a hang is a `hang:` violation.
+Oracle /   : implementation only (independent reader): an unparseable reachable file / failing stream -> the collection
+search       raises, or its keep sets (observed at _gc_prefix) still hold every reachable and live file; damage that still
+             parses to different records is recorded, not judged; whenever collect raised -> GarbageCollectionAborted and the
 search       data / manifest file set is unchanged when the fault precedes the first sweep (afterwards: only true
              orphans gone); always deleted & (reachable | live protected) = {}; a marker still present protects.
 """
@@ -33,7 +42,7 @@ from harness.lib import coqbuild, gcsim
 from harness.props import c05 as h5
 
 LEVEL = "proof"
-THEOREMS = ["C07_fail_closed", "C07_damage", "C07_transient", "C07_marker_keep"]
+THEOREMS = ["C07_fail_closed", "C07_damage", "C07_transient", "C07_partial_decode", "C07_marker_keep"]
 REQ = gcsim.REQ
 TIMEOUT_MS = h5.TIMEOUT_MS
 
@@ -47,7 +56,9 @@ MANIFEST_ENTRY = {
                   "pairs) and every damage class on every reachable metadata-plane file, comparing abort phase, deleted set and call trace",
     "level_note": "trusted: Coq kernel; translator/gen_norm.py (incl. the pinned try/except skeleton); wf_store; the pointer plane "
                   "(metadata_manager.refresh(), collect()'s check that the hinted metadata file exists) is outside the model: faults and "
-                  "damage there are judged by the implementation-only oracle (any exception, nothing deleted); a stale hint naming an older "
+                  "damage there are judged by the implementation-only oracle (any exception, nothing deleted); byte damage that still "
+                  "decodes to DIFFERENT records (e.g. a flipped path character) is undetectable without checksums: recorded, not judged, "
+                  "not compared; a short read ending exactly on an Avro block boundary likewise; a stale hint naming an older "
                   "existing version is C10's finding and only recorded; an abort raised by a sweep's own listing may follow deletions of "
                   "true orphans (the property's second disjunct) -- stated and proved as such; damage that still parses (a JSON object "
                   "without 'manifests' / 'files' reads as an EMPTY manifest) is modelled, recorded and not judged; local backend only",
@@ -87,7 +98,13 @@ def build_base(base: str, spec: Dict[str, Any]) -> Tuple[str, float]:
     t = create_table(root, h5._schema())
     reader = gcsim.IndepReader(root)
     for i in range(spec["snaps"]):
-        t.append_records([{"x": i}])
+        if spec.get("multi_append") and i == spec["snaps"] - 1:
+            tx = t.new_transaction().begin()          # one commit adding several files: a manifest with several records
+            for j in range(spec["multi_append"]):
+                tx.append_data([{"x": 100 * i + j}])
+            tx.commit()
+        else:
+            t.append_records([{"x": i}])
     if spec.get("rewrite") and spec["snaps"] >= 2:
         cur = h5._current_files(reader)
         tx = t.new_transaction().begin()
@@ -97,6 +114,8 @@ def build_base(base: str, spec: Dict[str, Any]) -> Tuple[str, float]:
         snaps = reader.snapshots()
         if len(snaps) >= 2:
             t.snapshot_manager.delete_snapshot(snaps[0]["snapshot_id"])
+    if spec.get("multiblock"):
+        reencode_multiblock(root, reader)
     h5._plant(root, "data/orphan_a.parquet", b"PAR1 orphan")
     h5._plant(root, "metadata/manifests/orphan_m.avro", b"orphan manifest")
     if spec.get("live_tx", True):
@@ -121,6 +140,74 @@ def build_base(base: str, spec: Dict[str, Any]) -> Tuple[str, float]:
             ts = now - spec["grace"] / 1000.0 - 100.0
             os.utime(os.path.join(root, key), (ts, ts))
     return root, now
+
+
+def reencode_multiblock(root: str, reader: gcsim.IndepReader) -> None:
+    """Re-encode every reachable list / manifest with one Avro block per record: the same records in the layout a writer
+    produces once a file outgrows one block (fastavro starts a new block every sync_interval bytes)."""
+    import fastavro
+    import io
+    keys = set()
+    for s in reader.snapshots():
+        lk, mks, _dks = reader.snapshot_files(s)
+        keys.add(lk)
+        keys.update(mks)
+    for key in keys:
+        full = os.path.join(root, key)
+        with open(full, "rb") as f:
+            rd = fastavro.reader(f)
+            schema, recs = rd.writer_schema, list(rd)
+        bio = io.BytesIO()
+        fastavro.writer(bio, schema, recs, sync_interval=1)
+        with open(full, "wb") as f:
+            f.write(bio.getvalue())
+
+
+def byte_damages(bs: bytes, thorough: bool, rng: random.Random, exhaustive: bool = True) -> List[Tuple[Any, ...]]:
+    """Byte-level damage of an Avro container: single-byte flips and truncations, spread over the whole file and aimed at
+    the structure (block counts / sizes, every sync marker, the last record)."""
+    n = len(bs)
+    sync = bs[-16:] if n >= 32 else b""
+    ends, i = [], 0
+    while sync:
+        j = bs.find(sync, i)
+        if j < 0:
+            break
+        ends.append(j + 16)
+        i = j + 16
+    body = ends[0] if ends else 0                  # end of the header = start of the first block
+    if thorough and exhaustive and n <= 1600:
+        offs = list(range(n))
+    else:
+        m = 160 if thorough else 14
+        cand = ({body + (n - body) * q // m for q in range(m)} | {e + d for e in ends[:-1] for d in (0, 1, 2, 3)}
+                | {n - 1, n - 16, n - 17, n - 20, body, body + 1, body + 2, body // 2})
+        offs = sorted(o for o in cand if 0 <= o < n)
+    out: List[Tuple[Any, ...]] = [("flip", o, 0xFF) for o in offs if bs[o] != 0xFF]
+    xo = offs[::3] if thorough else rng.sample(offs, min(4, len(offs)))
+    out += [("flip", o, bs[o] ^ 0x01) for o in xo]
+    if thorough:
+        cuts = sorted(set(range(1, n, 7)) | {e + d for e in ends for d in (-17, -16, -1, 0, 1)})
+    else:
+        cuts = sorted({n * q // 6 for q in range(1, 6)} | {n - 1, n - 17, body + 1} | set(ends[:-1]))
+    out += [("cut", c) for c in cuts if 0 < c < n]
+    return out
+
+
+def stream_positions(bs: bytes, thorough: bool) -> List[int]:
+    n = len(bs)
+    sync = bs[-16:] if n >= 32 else b""
+    ends, i = [], 0
+    while sync:
+        j = bs.find(sync, i)
+        if j < 0:
+            break
+        ends.append(j + 16)
+        i = j + 16
+    ks = {n * q // 8 for q in range(1, 8)} | {e + d for e in ends for d in (-1, 0, 1, 3)} | {n - 1, n - 8}
+    if thorough:
+        ks |= set(range(1, n, max(1, n // 60)))
+    return sorted(k for k in ks if 0 < k < n)
 
 
 def judge(spec_grace: int, now: float, reach: set, live: set, markers_before: Dict[str, Any], before: Dict[str, float], after: Dict[str, float],
@@ -149,28 +236,52 @@ def judge(spec_grace: int, now: float, reach: set, live: set, markers_before: Di
     return viol
 
 
+def protection_kept(real: Dict[str, Any], reach: set, live: set) -> bool:
+    """The property's second disjunct for a collection that did NOT raise: the sets the sweeps were told to keep still
+    contain every reachable and every live-protected file (observed at _gc_prefix, independent of file ages)."""
+    import posixpath
+    kept = {posixpath.normpath(k) for _prefix, ks in real.get("keep_sets") or [] for k in ks}
+    need = {k for k in (reach | live) if k.startswith("data/") or k.startswith("metadata/manifests/")}
+    return need <= kept
+
+
 def run_table(spec: Dict[str, Any]) -> Dict[str, Any]:
-    """All injections and damages on one base table (runs in a worker process)."""
+    """All injections and damages on one base table (runs in a worker process).  spec["only"]: one descriptor (replay)."""
     import logging
     logging.disable(logging.CRITICAL)
-    out: Dict[str, Any] = {"runs": [], "violations": [], "stats": {"calls": 0, "fault_runs": 0, "damage_runs": 0, "raised": 0, "absorbed": 0}}
+    out: Dict[str, Any] = {"runs": [], "violations": [], "stats": {"calls": 0, "fault_runs": 0, "damage_runs": 0, "byte_damage_runs": 0,
+                                                                    "stream_fault_runs": 0, "raised": 0, "absorbed": 0, "still_parses_not_judged": 0,
+                                                                    "stream_faults_undetectable_short_read": 0, "timeouts": 0}}
     base = spec["base"]
+    only = spec.get("only")
+    thorough = bool(spec.get("thorough"))
+    limit = float(spec.get("case_timeout", 30))
     shutil.rmtree(base, ignore_errors=True)
     os.makedirs(base)
     try:
         from datashard import load_table
-        root, now = build_base(os.path.join(base, "base"), spec)
+        with gcsim.bounded(120):
+            root, now = build_base(os.path.join(base, "base"), spec)
         grace = spec["grace"]
         reader0 = gcsim.IndepReader(root)
         reach = reader0.reachable()
         snaps_meta = reader0.snapshots()
-        reach_lists = {gcsim.resolve(s["manifest_list"]) for s in snaps_meta if s.get("manifest_list")}
-        reach_mans = set()
-        for s in snaps_meta:
-            reach_mans.update(reader0.snapshot_files(s)[1])
+        list_keys: List[str] = []
+        man_keys: List[str] = []
+        for sm in snaps_meta:
+            if not sm.get("manifest_list"):
+                continue
+            lk, mks, _d = reader0.snapshot_files(sm)
+            if lk not in list_keys:
+                list_keys.append(lk)
+            for mk in mks:
+                if mk not in man_keys:
+                    man_keys.append(mk)
+        reach_lists, reach_mans = set(list_keys), set(man_keys)
+        targets = [("list", i, k) for i, k in enumerate(list_keys)] + [("manifest", i, k) for i, k in enumerate(man_keys)]
         live = reader0.live_protected(now, TIMEOUT_MS)
         markers0 = reader0.markers()
-        snaps = [s.get("manifest_list") or "" for s in snaps_meta]
+        snaps = [sm.get("manifest_list") or "" for sm in snaps_meta]
         base_store = gcsim.store_term(root)
         n = [0]
 
@@ -181,20 +292,38 @@ def run_table(spec: Dict[str, Any]) -> Dict[str, Any]:
             gcsim.copy_table(root, dst)
             return dst
 
-        def one(plan: Optional[List[Dict[str, Any]]], damage: Optional[Tuple[str, str]], pos: str, what: str) -> Dict[str, Any]:
+        def one(plan: Optional[List[Dict[str, Any]]], damage: Optional[Tuple[str, Any]], pos: str, what: str,
+                desc: Optional[Dict[str, Any]] = None) -> Dict[str, Any]:
             dst = fresh_copy()
             store = None
-            t = load_table(dst)          # opened while intact; the damage happens before the collection
-            if damage is not None:
-                apply_damage(dst, *damage)
-                store = gcsim.store_term(dst)
-            before = gcsim.list_tree(dst)
-            real = gcsim.run_collect(t, grace, now, plan)
-            after = gcsim.list_tree(dst)
-            viol = judge(grace, now, reach, live, markers0, before, after, real, pos, what)
+            before: Dict[str, float] = {}
+            try:
+                with gcsim.bounded(limit):
+                    t = load_table(dst)          # opened while intact; the damage happens before the collection
+                    if damage is not None:
+                        apply_damage(dst, *damage)
+                        store = gcsim.store_term(dst)
+                    before = gcsim.list_tree(dst)
+                    real = gcsim.run_collect(t, grace, now, plan)
+                after = gcsim.list_tree(dst)
+                viol = judge(grace, now, reach, live, markers0, before, after, real, pos, what)
+            except (gcsim.CaseTimeout, MemoryError) as e:
+                out["stats"]["timeouts"] += 1
+                real = {"raised": True, "exc_type": type(e).__name__, "exc": str(e), "phase": -1, "trace": [], "keep_sets": [], "unknown": [],
+                        "aborted_type_ok": False}
+                after = gcsim.list_tree(dst)
+                viol = [{"key": f"hang:{what}", "what": f"{what}: the collection did not finish within {limit:.0f} s / its memory limit ({type(e).__name__})"}]
             shutil.rmtree(os.path.dirname(dst), ignore_errors=True)
+            for v in viol:
+                v["desc"] = desc
             return {"real": {k: real.get(k) for k in ("raised", "exc_type", "exc", "phase", "trace", "keep_sets", "unknown", "aborted_type_ok")},
-                    "before": before, "after": after, "plan": plan, "damage": damage, "pos": pos, "what": what, "violations": viol, "store": store}
+                    "before": before, "after": after, "plan": plan, "damage": damage, "pos": pos, "what": what, "violations": viol, "store": store,
+                    "desc": desc}
+
+        def wanted(desc: Dict[str, Any]) -> bool:
+            if only is None:
+                return True
+            return all(only.get(k) == v for k, v in desc.items() if k in only)
 
         clean = one(None, None, "none", "fault-free")
         out["clean"] = clean
@@ -208,7 +337,7 @@ def run_table(spec: Dict[str, Any]) -> Dict[str, Any]:
             if op in ("S", "D") and not key.startswith(gcsim.INFLIGHT + "/"):
                 return "sweep"
             return "pre"
-        # single faults at every call
+        # ---- single faults at every call
         occ: Dict[Tuple[str, str], int] = {}
         rng = random.Random(spec["seed"] + 1)
         for i, (op, key, _f) in enumerate(T):
@@ -218,11 +347,14 @@ def run_table(spec: Dict[str, Any]) -> Dict[str, Any]:
             kinds = KINDS[op] if spec["all_kinds"] else ["raise"] + rng.sample(KINDS[op][1:], 1)
             for kind in kinds:
                 what = f"{kind}@{op}:{role_of(key, reach_lists, reach_mans)}"
-                r = one([{"op": op, "key": key, "occ": o, "kind": kind}], None, pos, what)
+                desc = {"type": "fault", "what": what}
+                if not wanted(desc):
+                    continue
+                r = one([{"op": op, "key": key, "occ": o, "kind": kind}], None, pos, what, desc)
                 out["runs"].append(r)
                 out["stats"]["fault_runs"] += 1
-        # double faults (thorough)
-        for _ in range(spec.get("pairs", 0)):
+        # ---- double faults (thorough)
+        for _ in range(spec.get("pairs", 0) if only is None else 0):
             i, j = sorted(rng.sample(range(len(T)), 2))
             plan = []
             occ2: Dict[Tuple[str, str], int] = {}
@@ -233,37 +365,108 @@ def run_table(spec: Dict[str, Any]) -> Dict[str, Any]:
                     plan.append({"op": op, "key": key, "occ": o, "kind": rng.choice(KINDS[op])})
             pos = "sweep" if any(pos_of(p["op"], p["key"]) == "sweep" for p in plan) else "pre"
             what = "double:" + "+".join(f"{p['kind']}@{p['op']}:{role_of(p['key'], reach_lists, reach_mans)}" for p in plan)
-            out["runs"].append(one(plan, None, pos, what))
+            out["runs"].append(one(plan, None, pos, what, {"type": "fault", "what": what}))
             out["stats"]["fault_runs"] += 1
-        # every damage class on every reachable list / manifest
-        for key in sorted(reach_lists | reach_mans):
+        # ---- the stream of a reachable list / manifest misbehaves PART-WAY (connection reset, short read): what that amounts to
+        #      is decided by decoding the same faulty stream independently (fastavro only)
+        for role, ordinal, key in targets:
+            bs = open(os.path.join(root, key), "rb").read()
+            orig = gcsim.avro_probe(gcsim.as_file(bs))
+            for mode in ("raise", "eof"):
+                seen_effect = set()
+                for k in stream_positions(bs, thorough):
+                    desc = {"type": "stream", "target": [role, ordinal], "mode": mode, "k": k}
+                    if not wanted(desc):
+                        continue
+                    pr = gcsim.avro_probe(gcsim.FaultyStream(bs, mode, k))
+                    if pr["state"] == "complete":
+                        if pr["paths"] != orig["paths"]:
+                            out["stats"]["stream_faults_undetectable_short_read"] += 1     # ends exactly on a block boundary
+                        continue
+                    effect = (len(pr["paths"]), pr["caught"])
+                    if not thorough and only is None and effect in seen_effect:
+                        continue                     # quick: one position per (records decoded before the failure, exception class)
+                    seen_effect.add(effect)
+                    code = 1 if pr["caught"] else 2
+                    what = f"stream-{mode}@O:{role}"
+                    r = one([{"op": "O", "key": key, "occ": 0, "kind": "stream", "mode": mode, "k": k, "code": code}], None, "pre", what, desc)
+                    r["decoded_before_failure"] = len(pr["paths"])
+                    if not r["real"]["raised"] and not protection_kept(r["real"], reach, live):
+                        r["violations"].append({"key": f"stream-fault-ignored:{mode}:{role}", "desc": desc,
+                                                "what": f"the stream of reachable {role} #{ordinal} ({len(orig['paths'])} records) failed at byte {k} of {len(bs)} "
+                                                        f"({mode}; {len(pr['paths'])} record(s) decoded first; {pr['error']}) and the collection completed with reachable files missing from its keep sets, "
+                                                        f"deleting {sorted(set(r['before']) - set(r['after']))[:4]}"})
+                    out["runs"].append(r)
+                    out["stats"]["stream_fault_runs"] += 1
+        # ---- every damage class on every reachable list / manifest
+        for role, ordinal, key in targets:
             for dmg in DAMAGES:
-                what = f"damage:{dmg}:{role_of(key, reach_lists, reach_mans)}"
-                r = one(None, (key, dmg), "pre", what)
+                what = f"damage:{dmg}:{role}"
+                desc = {"type": "damage", "target": [role, ordinal], "damage": dmg}
+                if not wanted(desc):
+                    continue
+                r = one(None, (key, dmg), "pre", what, desc)
                 if dmg == "json-empty":
                     r["violations"] = []          # damage that still parses: recorded, not judged
                     r["not_judged"] = True
-                elif not r["real"]["raised"]:
-                    r["violations"].append({"key": f"damage-not-detected:{dmg}:{role_of(key, reach_lists, reach_mans)}",
-                                            "what": f"reachable {role_of(key, reach_lists, reach_mans)} {key} damaged ({dmg}) and the collection completed"})
+                elif not r["real"]["raised"] and not protection_kept(r["real"], reach, live):
+                    r["violations"].append({"key": f"damage-not-detected:{dmg}:{role}", "desc": desc,
+                                            "what": f"reachable {role} {key} damaged ({dmg}) and the collection completed"})
                 out["runs"].append(r)
                 out["stats"]["damage_runs"] += 1
-        # the pointer plane (oracle only: metadata_manager.refresh is outside the model): the current metadata file missing
+        # ---- byte-level damage anywhere in the file: single-byte flips and truncations (header, block framing, EVERY record,
+        #      every sync marker).  Whether the damaged bytes still parse is decided by an independent full decode.
+        for role, ordinal, key in targets:
+            bs = open(os.path.join(root, key), "rb").read()
+            orig = gcsim.avro_probe(gcsim.as_file(bs))
+            seen_effect = set()
+            for dmg in byte_damages(bs, thorough, rng, bool(spec.get("exhaustive", True))):
+                desc = {"type": "damage", "target": [role, ordinal], "damage": list(dmg)}
+                if not wanted(desc):
+                    continue
+                new = damaged_bytes(bs, dmg)
+                pr = gcsim.avro_probe(gcsim.as_file(new))
+                still = pr["state"] == "complete"
+                same_prefix = pr["records"] == orig["records"][:len(pr["records"])]
+                effect = (dmg[0], pr["state"], len(pr["paths"]), pr["caught"], same_prefix)
+                if not thorough and only is None and effect in seen_effect and dmg[0] == "flip" and rng.random() < 0.5:
+                    continue
+                seen_effect.add(effect)
+                what = f"damage:{dmg[0]}:{role}"
+                r = one(None, (key, dmg), "pre", what, desc)
+                r["decoded_before_failure"] = len(pr["paths"])
+                if not same_prefix:
+                    r["no_model"] = True     # records that decode to something else: what the library's own field checks make of
+                    #                          them is not modelled (the oracle below still applies when the file is unparseable)
+                if still and pr["records"] != orig["records"]:
+                    r["violations"], r["not_judged"] = [], True        # damage that still parses to something else: not judged
+                    out["stats"]["still_parses_not_judged"] += 1
+                elif not still and not r["real"]["raised"] and not protection_kept(r["real"], reach, live):
+                    r["violations"].append({"key": f"damage-not-detected:{dmg[0]}:{role}", "desc": desc,
+                                            "what": f"reachable {role} #{ordinal} ({len(orig['paths'])} records, {len(bs)} bytes) damaged by {list(dmg)}: an independent "
+                                                    f"decode fails after {len(pr['paths'])} record(s) ({pr['error']}), yet the collection completed with reachable files missing from its keep sets, "
+                                                    f"deleting {sorted(set(r['before']) - set(r['after']))[:4]}"})
+                out["runs"].append(r)
+                out["stats"]["byte_damage_runs"] += 1
+        # ---- the pointer plane (oracle only: metadata_manager.refresh is outside the model): the current metadata file missing
         # or unparseable must make the collection raise without deleting; a stale hint is F-C10c territory (recorded only)
         hint = open(os.path.join(root, gcsim.HINT_KEY)).read().strip()
         cur_meta = "metadata/" + (f"v{hint}.metadata.json" if hint.isdigit() else hint)
         older = sorted(k for k in gcsim.list_tree(root) if gcsim.is_pointer_plane(k) and k.startswith("metadata/v") and k != cur_meta)
         for dmg in ["missing", "garbage", "empty", "cut-header"]:
             what = f"damage:{dmg}:current-metadata"
-            r = one(None, (cur_meta, dmg), "refresh", what)
+            desc = {"type": "damage", "target": ["current-metadata", 0], "damage": dmg}
+            if not wanted(desc):
+                continue
+            r = one(None, (cur_meta, dmg), "refresh", what, desc)
             r["store"], r["pointer_plane"] = None, True
             if not r["real"]["raised"]:
-                r["violations"].append({"key": f"damage-not-detected:{dmg}:current-metadata",
+                r["violations"].append({"key": f"damage-not-detected:{dmg}:current-metadata", "desc": desc,
                                         "what": f"the current metadata file {cur_meta} is damaged ({dmg}) and the collection completed "
                                                 f"(deleted {sorted(set(r['before']) - set(r['after']))[:3]})"})
             out["runs"].append(r)
             out["stats"]["damage_runs"] += 1
-        if older:
+        if older and only is None:
             r = one(None, (gcsim.HINT_KEY, "stale:" + older[0].split("/", 1)[1]), "refresh", "damage:stale-hint")
             r["store"], r["pointer_plane"], r["not_judged"], r["violations"] = None, True, True, []
             out["stats"]["stale_hint_completed_deleting"] = len(set(r["before"]) - set(r["after"])) if not r["real"]["raised"] else -1
@@ -272,6 +475,10 @@ def run_table(spec: Dict[str, Any]) -> Dict[str, Any]:
             out["stats"]["raised" if r["real"]["raised"] else "absorbed"] += 1
             out["violations"].extend(r["violations"])
         out["model"] = {"snaps": snaps, "store": base_store, "now_ms": int(now * 1000), "grace": grace, "tp": root}
+        out["shape"] = {"lists": [len(gcsim.avro_probe(open(os.path.join(root, k), "rb"))["paths"]) for k in list_keys],
+                        "manifests": [len(gcsim.avro_probe(open(os.path.join(root, k), "rb"))["paths"]) for k in man_keys]}
+    except (gcsim.CaseTimeout, MemoryError) as e:
+        out["violations"].append({"key": "hang:build", "what": f"building the base table did not finish ({type(e).__name__}: {e})", "desc": None})
     except Exception:
         out["harness_error"] = traceback.format_exc()[-1500:]
     finally:
@@ -279,10 +486,23 @@ def run_table(spec: Dict[str, Any]) -> Dict[str, Any]:
     return out
 
 
-def apply_damage(root: str, key: str, dmg: str) -> None:
+def damaged_bytes(bs: bytes, dmg: Tuple[Any, ...]) -> bytes:
+    if dmg[0] == "flip":
+        return bs[:dmg[1]] + bytes([dmg[2]]) + bs[dmg[1] + 1:]
+    if dmg[0] == "cut":
+        return bs[:dmg[1]]
+    raise ValueError(dmg)
+
+
+def apply_damage(root: str, key: str, dmg: Any) -> None:
     full = os.path.join(root, key)
     st = os.stat(full)
     bs = open(full, "rb").read()
+    if isinstance(dmg, (tuple, list)):
+        with open(full, "wb") as f:
+            f.write(damaged_bytes(bs, tuple(dmg)))
+        os.utime(full, (st.st_mtime, st.st_mtime))
+        return
     if dmg == "missing":
         os.remove(full)
         return
@@ -326,8 +546,13 @@ def refresh_faults(spec: Dict[str, Any]) -> Dict[str, Any]:
                 os.makedirs(os.path.dirname(dst))
                 gcsim.copy_table(root, dst)
                 before = gcsim.list_tree(dst)
-                t2 = load_table(dst)
-                real = gcsim.run_collect(t2, spec["grace"], now, [{"op": op, "key": key, "occ": o, "kind": kind}])
+                try:
+                    with gcsim.bounded(30):
+                        t2 = load_table(dst)
+                        real = gcsim.run_collect(t2, spec["grace"], now, [{"op": op, "key": key, "occ": o, "kind": kind}])
+                except (gcsim.CaseTimeout, MemoryError) as e:
+                    out["violations"].append({"key": f"hang:{kind}@refresh:{op}", "what": f"{kind}@refresh:{op}: the collection did not finish ({type(e).__name__})"})
+                    continue
                 after = gcsim.list_tree(dst)
                 out["violations"].extend(judge(spec["grace"], now, reach, live, markers0, before, after, real, "refresh" if real["raised"] else "none",
                                                f"{kind}@refresh:{op}"))
@@ -344,29 +569,61 @@ def refresh_faults(spec: Dict[str, Any]) -> Dict[str, Any]:
 def make_specs(ctx) -> List[Dict[str, Any]]:
     quick = ctx.tier == "quick"
     specs = []
+    # multi_append: the newest commit adds several files (a manifest with several records); multiblock: lists and manifests
+    # laid out with one Avro block per record (what a writer produces once a file outgrows a block)
     variants = [
-        {"snaps": 1, "rewrite": False, "expire": False},
+        {"snaps": 1, "rewrite": False, "expire": False, "multi_append": 3},
         {"snaps": 2, "rewrite": True, "expire": False},
-        {"snaps": 3, "rewrite": False, "expire": True, "legacy_marker": True},
-        {"snaps": 4, "rewrite": True, "expire": True},
+        {"snaps": 3, "rewrite": False, "expire": True, "legacy_marker": True, "multiblock": True},
+        {"snaps": 4, "rewrite": True, "expire": True, "multi_append": 2, "multiblock": True},
     ]
     graces = [0] if quick else [0, 3600000]
     for vi, v in enumerate(variants):
         for g in graces:
             specs.append(dict(v, seed=ctx.rng.randrange(1 << 30), grace=g, all_kinds=True, pairs=int(os.environ.get("VERIF_C07_PAIRS", 0 if quick else 250)),
+                              thorough=not quick, exhaustive=(g == 0), case_timeout=30,
                               base=os.path.join(ctx.scratch, f"f{vi}_{g}")))
     return specs
+
+
+EVAL_STATS = {"requested": 0, "distinct": 0}
+
+
+def eval_dedup(exprs: List[str], pre: str) -> List[Any]:
+    """coq_eval, evaluating each distinct expression once (many damaged files fall into the same content class)."""
+    uniq: Dict[str, int] = {}
+    for e in exprs:
+        uniq.setdefault(e, len(uniq))
+    order = sorted(uniq, key=uniq.get)
+    EVAL_STATS["requested"] += len(exprs)
+    EVAL_STATS["distinct"] += len(order)
+    vals = coqbuild.coq_eval(REQ, order, preamble=pre, chunk=gcsim.chunk_for(len(order)), timeout=2400) if order else []
+    return [vals[uniq[e]] for e in exprs]
 
 
 def run_campaign(ctx) -> None:
     specs = make_specs(ctx)
     t0 = time.time()
     workers = min(12, max(1, (os.cpu_count() or 2) - 2))
-    with cf.ProcessPoolExecutor(max_workers=workers, mp_context=mp.get_context("spawn")) as ex:
+    budget = 600 if ctx.tier == "quick" else 3000          # backstop: a worker that is stuck beyond its own per-case limits
+    ex = cf.ProcessPoolExecutor(max_workers=workers, mp_context=mp.get_context("spawn"), initializer=gcsim.limit_worker_memory)
+    try:
         futs = [ex.submit(run_table, s) for s in specs]
         rfut = [ex.submit(refresh_faults, s) for s in specs[:2]]
-        results = [f.result() for f in futs]
-        rres = [f.result() for f in rfut]
+        results, rres = [], []
+        for f, sp in list(zip(futs, specs)) + list(zip(rfut, specs[:2])):
+            try:
+                res = f.result(timeout=max(5.0, budget - (time.time() - t0)))
+            except Exception as e:  # noqa: BLE001 - TimeoutError, BrokenProcessPool (worker killed by its memory limit)
+                res = {"violations": [{"key": "hang:worker", "desc": None,
+                                       "what": f"the fault campaign on table {({k: sp[k] for k in sp if k != 'base'})} did not finish: {type(e).__name__}"}],
+                       "runs": [] if f in futs else 0, "dead": True}
+            (results if f in futs else rres).append(res)
+    finally:
+        for proc in list(getattr(ex, "_processes", {}).values()):
+            if any(r.get("dead") for r in results + rres):
+                proc.kill()
+        ex.shutdown(wait=False, cancel_futures=True)
     ctx.stats["campaign_wall_s"] = round(time.time() - t0, 1)
     agg = {"tables": len(specs), "storage_calls_per_collection": [], "fault_runs": 0, "damage_runs": 0, "raised": 0, "absorbed_or_completed": 0,
            "refresh_fault_runs": sum(r.get("runs", 0) for r in rres), "not_judged_parses_as_empty": 0}
@@ -377,19 +634,27 @@ def run_campaign(ctx) -> None:
             ctx.violation(v["key"], v["what"], {"spec": {k: specs[0][k] for k in specs[0] if k != "base"}, "campaign": "refresh"})
     stage1, recs = [], []
     for spec, res in zip(specs, results):
+        if res.get("dead"):
+            for v in res["violations"]:
+                ctx.violation(v["key"], v["what"], {"spec": {k: spec[k] for k in spec if k != "base"}, "campaign": "faults"})
+            continue
         if "harness_error" in res:
             ctx.proof_problems.append("fault harness raised: " + res["harness_error"][-600:])
             continue
         agg["storage_calls_per_collection"].append(res["stats"]["calls"])
         agg["fault_runs"] += res["stats"]["fault_runs"]
         agg["damage_runs"] += res["stats"]["damage_runs"]
+        for k2 in ("byte_damage_runs", "stream_fault_runs", "still_parses_not_judged", "stream_faults_undetectable_short_read", "timeouts"):
+            agg[k2] = agg.get(k2, 0) + res["stats"].get(k2, 0)
+        agg.setdefault("records_per_list", []).append(res.get("shape", {}).get("lists"))
+        agg.setdefault("records_per_manifest", []).append(res.get("shape", {}).get("manifests"))
         agg["raised"] += res["stats"]["raised"]
         agg["absorbed_or_completed"] += res["stats"]["absorbed"]
         if "stale_hint_completed_deleting" in res["stats"]:
             agg.setdefault("not_judged_stale_hint_files_deleted", []).append(res["stats"]["stale_hint_completed_deleting"])
         pspec = {k: spec[k] for k in spec if k != "base"}
         for v in res["violations"]:
-            ctx.violation(v["key"], v["what"], {"spec": pspec, "campaign": "faults"})
+            ctx.violation(v["key"], v["what"], {"spec": pspec, "campaign": "faults", "only": v.get("desc")})
         m = res["model"]
         stage1.append(gcsim.gc_expr(m["tp"], m["grace"], m["now_ms"], TIMEOUT_MS, [], m["snaps"], f"base{len(recs)}"))
         recs.append((spec, res))
@@ -430,7 +695,7 @@ def run_campaign(ctx) -> None:
                 done.append((ri, run, last_model))
                 p[3] = []
                 continue
-            mapped.append((best[0], best[1]["kind"]))
+            mapped.append((best[0], best[1]["kind"] if best[1]["kind"] != "stream" else f"stream{best[1]['code']}"))
             remaining.remove(best[1])
             m = recs[ri][1]["model"]
             exprs.append(gcsim.gc_expr(m["tp"], m["grace"], m["now_ms"], TIMEOUT_MS, mapped, m["snaps"], f"base{ri}"))
@@ -438,7 +703,7 @@ def run_campaign(ctx) -> None:
         if not exprs:
             break
         try:
-            vals = coqbuild.coq_eval(REQ, exprs, preamble=pre, chunk=gcsim.chunk_for(len(exprs)), timeout=2400)
+            vals = eval_dedup(exprs, pre)
         except RuntimeError as e:
             ctx.proof_problems.append("model evaluation failed: " + str(e)[:600])
             return
@@ -465,20 +730,21 @@ def run_campaign(ctx) -> None:
     for ri, (spec, res) in enumerate(recs):
         m = res["model"]
         for run in res["runs"]:
-            if run["damage"] is None or run.get("pointer_plane"):
+            if run["damage"] is None or run.get("pointer_plane") or run.get("no_model"):
                 continue
             if run.get("not_judged"):
                 agg["not_judged_parses_as_empty"] += 1
             exprs.append(gcsim.gc_expr(m["tp"], m["grace"], m["now_ms"], TIMEOUT_MS, [], m["snaps"], run["store"]))
             druns.append((ri, run))
     try:
-        vals = coqbuild.coq_eval(REQ, exprs, chunk=gcsim.chunk_for(len(exprs)), timeout=2400)
+        vals = eval_dedup(exprs, "")
     except RuntimeError as e:
         ctx.proof_problems.append("model evaluation failed: " + str(e)[:600])
         return
+    ctx.stats["model_evaluations_distinct"] = dict(EVAL_STATS)
     bad = []
     for (ri, run), v in zip(druns, vals):
-        ctx.count(1, ("damage", ri, run["what"], run["damage"][0]))
+        ctx.count(1, ("damage", ri, run["what"], run["damage"][0], repr(run["damage"][1])))
         d = gcsim.compare(run["real"], run["before"], run["after"], gcsim.parse_render(v))
         if d:
             bad.append({"spec": {k: recs[ri][0][k] for k in recs[ri][0] if k != "base"}, "damage": run["what"], "file": run["damage"][0], "diffs": d[:4]})
@@ -492,9 +758,10 @@ def run_campaign(ctx) -> None:
 def run(ctx) -> None:
     import logging
     logging.disable(logging.CRITICAL)
-    ctx.rule = ("one evaluation = one real collection with one fault plan (a fault at one storage call: 4 kinds; thorough: pairs) or one "
-                "damaged reachable file (6 classes), judged by the independent oracle and compared with the model; distinct by "
-                "(table, fault kind, call, file role)")
+    ctx.rule = ("one evaluation = one real collection with one fault plan (a fault at one storage call: 4 kinds, or the stream failing "
+                "part-way; thorough: pairs) or one damaged reachable file (6 whole-file classes; single-byte flips and truncations at "
+                "many offsets), judged by the independent oracle and compared with the model; distinct by (table, fault kind, call, "
+                "file role, offset)")
     ctx.trusted_base += [
         "translator/gen_norm.py (regenerated path kernel; try/except skeleton of collect / _load_inflight_protection / _marker_targets / _gc_prefix pinned)",
         "harness: harness/props/c07.py, harness/lib/gcsim.py (fault injection by wrapping the storage backend object; independent reader; frozen clock)",
@@ -518,7 +785,12 @@ def replay(ctx, payload) -> int:
         print("replay: payload names a broken proof / correspondence; re-run ./bin/check C07 thorough")
         return 2
     spec = dict(spec, base=os.path.join(ctx.scratch, "replay"))
+    if case.get("only"):
+        spec["only"] = case["only"]          # exactly this fault / damage on a table rebuilt from the same spec
     res = refresh_faults(spec) if case.get("campaign") == "refresh" else run_table(spec)
+    if "harness_error" in res:
+        print("replay: harness error", res["harness_error"][-400:])
+        return 2
     key = payload.get("key")
     hits = [v for v in res["violations"] if v["key"] == key] or res["violations"]
     for v in hits[:5]:
